@@ -23,6 +23,10 @@ type C18Case struct {
 	ArchiveID  int      `json:"archive_id"`
 	ShowHeader bool     `json:"show_header"`
 	Sort       bool     `json:"sort"`
+	// Later: writes made after the file was built by a writer whose clock is LaterBy seconds ahead of the
+	// viewer's (timestamps after the viewer's now): they occupy ring slots of intervals inside the viewer's window
+	Later   []SlotWrite `json:"later,omitempty"`
+	LaterBy int64       `json:"later_by,omitempty"`
 }
 
 // checkHeaderBlock compares printed header records with the layout (independent rendering rules).
@@ -81,7 +85,13 @@ func runC18(c C18Case, ev *Evid) (fs []Finding) {
 		add("setup", "%v", err)
 		return
 	}
-	desc := fmt.Sprintf("now=%d from=%d until=%d archive=%d header=%v sort=%v layout=%s", now, c.From, c.Until, c.ArchiveID, c.ShowHeader, c.Sort, l)
+	if len(c.Later) > 0 {
+		if err := modifyFile(path, c.Later, now+c.LaterBy); err != nil {
+			add("setup", "later writes: %v", err)
+			return
+		}
+	}
+	desc := fmt.Sprintf("now=%d from=%d until=%d archive=%d header=%v sort=%v layout=%s later-writes=%d", now, c.From, c.Until, c.ArchiveID, c.ShowHeader, c.Sort, l, len(c.Later))
 	// ---- view
 	vout := filepath.Join(dir, "view.txt")
 	vc := &cmd.ViewCommand{SrcBase: filepath.Join(dir, "base"), SrcRelPath: "d/f.wsp", From: wt.Timestamp(c.From), Until: wt.Timestamp(c.Until), ArchiveID: c.ArchiveID, ShowHeader: c.ShowHeader, TextOut: vout}
@@ -322,6 +332,14 @@ func TestC18(t *testing.T) {
 			}
 			c.ShowHeader = rapid.Bool().Draw(t, "header")
 			c.Sort = rapid.Bool().Draw(t, "sort")
+			if l.Archives[0].Points <= 200 && rapid.IntRange(0, 5).Draw(t, "laterWriter") == 0 {
+				a0 := l.Archives[0]
+				c.LaterBy = rapid.Int64Range(1, a0.Ret()).Draw(t, "laterBy")
+				n := rapid.IntRange(1, 8).Draw(t, "laterWrites")
+				for i := 0; i < n; i++ {
+					c.Later = append(c.Later, SlotWrite{Arch: 0, T: c.Now + rapid.Int64Range(1, c.LaterBy).Draw(t, "laterT"), V: F64(genFileValue(t, valPrintable))})
+				}
+			}
 			return c
 		},
 		Run: runC18,
